@@ -5329,6 +5329,15 @@ class _InstancePrivate:
     def __setstate__(self, state):
         for k, v in state.items():
             setattr(self, k, v)
+        # A copy starts idle, also when it was taken in the middle of a
+        # batch, of param.trigger or of the synchronisation of a reference
+        self.parameters_state = {
+            "BATCH_WATCH": False, # If true, Event and watcher objects are queued.
+            "TRIGGER": False,
+            "events": [], # Queue of batched events
+            "watchers": [], # Queue of batched watchers
+        }
+        self.syncing = set()
 
 
 class Parameterized(metaclass=ParameterizedMetaclass):
